@@ -352,7 +352,8 @@ def run(ctx):
         with open(sc.file('MC_sess.cfg'), 'w') as f:
             f.write('SPECIFICATION Spec\nCONSTANT Ends1 <- MCE1\nCONSTANT Ends2 <- MCE2\nINVARIANT SchemaUnchanged\nINVARIANT Isolated\n'
                     'PROPERTY MemoOnlyGrows\nPROPERTY NonInterference\nCHECK_DEADLOCK FALSE\n')
-        r = tlc.run(sc.file('MC_sess.tla'), sc.file('MC_sess.cfg'), sc, workers=8, timeout=1200)
+        r = tlc.run(sc.file('MC_sess.tla'), sc.file('MC_sess.cfg'), sc, workers=8, timeout=1200, coverage=True)
+        ctx.require_actions(r, ['Arrive', 'Close', 'Poll', 'OneShot', 'ToggleDebug'], 'Session')
         ctx.add_tlc('Session: interleavings of 2 suspended decoders + one-shot calls + debug switch', r)
         if not r.ok:
             raise core.Machinery('Session model run failed: %s %s\n%s' % (r.violated, r.errors[:2], r.out[-1500:]))
